@@ -31,7 +31,7 @@ import (
 )
 
 type eStep struct {
-	K     string `json:"k"` // kill exit dieonstart start enable disable killsup exitsup wait
+	K     string `json:"k"` // kill busykill exit dieonstart start enable disable killsup exitsup wait
 	Names []int  `json:"names,omitempty"`
 	R     int    `json:"r,omitempty"`
 	N     int    `json:"n,omitempty"`
@@ -165,6 +165,9 @@ type e2eSup struct {
 }
 
 type cmdChildren struct{ reply chan []act.SupervisorChild }
+
+// cmdBusy keeps the supervisor inside HandleMessage until gate is closed (exits of its children pile up meanwhile)
+type cmdBusy struct{ entered, gate chan struct{} }
 type cmdMgmt struct {
 	what  string
 	name  int
@@ -179,6 +182,9 @@ func (s *e2eSup) Init(args ...any) (act.SupervisorSpec, error) {
 
 func (s *e2eSup) HandleMessage(from gen.PID, message any) error {
 	switch m := message.(type) {
+	case cmdBusy:
+		close(m.entered)
+		<-m.gate
 	case cmdChildren:
 		m.reply <- s.Children()
 	case cmdMgmt:
@@ -533,6 +539,41 @@ func runE2ECase(node gen.Node, watcher gen.PID, c *eCase, stats map[string]int) 
 				}
 			}
 			stats["fault-"+st.K] += len(pids)
+		case "busykill":
+			// the named children die while the supervisor is busy: by the time it takes the first exit every one of them
+			// is gone (its exit signals to the siblings find nobody), the other exits are already queued
+			var pids []gen.PID
+			for _, n := range st.Names {
+				if p, ok := r.pidOfName(n); ok {
+					pids = append(pids, p)
+				}
+			}
+			busy := cmdBusy{make(chan struct{}), make(chan struct{})}
+			if node.Send(r.sup, busy) == nil {
+				select {
+				case <-busy.entered:
+				case <-time.After(2 * time.Second):
+				}
+				for _, p := range pids {
+					node.SendExit(p, e2eAbnormal) // (children do not trap: they terminate with this reason at once)
+				}
+				end := time.Now().Add(2 * time.Second)
+				for time.Now().Before(end) {
+					any := false
+					for _, p := range pids {
+						if r.alive(p) {
+							any = true
+						}
+					}
+					if !any {
+						break
+					}
+					time.Sleep(pollEvery)
+				}
+				time.Sleep(2 * time.Millisecond)
+				close(busy.gate)
+			}
+			stats["fault-busykill"] += len(pids)
 		case "dieonstart":
 			rec.Lock()
 			for i := 0; i < st.N; i++ {
@@ -705,6 +746,10 @@ func genE2ECase(r *rand.Rand, family string) *eCase {
 		case 1:
 			// only the period is configured: the intensity is the default (5), the configured period must stay
 			c.Intensity, c.Period, limit = 0, 60, 5
+		}
+		if r.Intn(3) == 0 {
+			// a burst that hits every child while the supervisor is busy, first
+			c.Steps = append(c.Steps, eStep{K: "busykill", Names: allNames(n)}, eStep{K: "wait"})
 		}
 		for i := 0; i < limit+2; i++ {
 			c.Steps = append(c.Steps, eStep{K: "kill", Names: []int{pick()}}, eStep{K: "wait"})
